@@ -662,4 +662,3 @@ func replay(c *core.Ctx, raw json.RawMessage) {
 		}
 	}
 }
-
